@@ -175,12 +175,27 @@ def _ref_path(ref):
 
 
 def self_containing_hosts(doc):
-    n = 0
+    """number of map $merge hosts that lie on a reference CYCLE: the host's target contains the host itself, directly
+    (`a: {x: {$merge: a}}`) or through further hosts (`b: {$merge: c}`, `c: {p: {$merge: b}, q: {$merge: b}}`)"""
+    hosts = []
     for p, x in gen.paths(doc):
         if isinstance(x, dict) and "$merge" in x and all(isinstance(k, str) for k in p):
             t = _ref_path(x["$merge"])
-            if t is not None and (t == () or tuple(p[:len(t)]) == t):
+            if t is not None:
+                hosts.append((tuple(p), t))
+    # edge h -> h' when h' lies inside the subtree h refers to
+    succ = {i: [j for j, (pj, _) in enumerate(hosts) if pj[:len(t)] == t] for i, (_, t) in enumerate(hosts)}
+    n = 0
+    for i in succ:
+        seen, todo = set(), list(succ[i])
+        while todo:
+            j = todo.pop()
+            if j == i:
                 n += 1
+                break
+            if j not in seen:
+                seen.add(j)
+                todo.extend(succ[j])
     return n
 
 
